@@ -111,7 +111,7 @@ synchronous failure: including `remaining -= 1` and `last_error = …` of `on_co
 def opened (st : St) (it : Nat) (a : Addr) (rest : List Addr) : St :=
   { st with iters := modifyNth (fun _ => rest) st.iters it,
             streams := st.streams ++ [⟨a, it, if a.sync then .err else .pending, a.sync, a.sync, 0⟩],
-            inSet := st.inSet ++ [st.streams.length],
+            inSet := addIn a st.inSet st.streams.length,
             remaining := if a.sync then st.remaining - 1 else st.remaining,
             lastError := if a.sync then some st.streams.length else st.lastError }
 
@@ -192,7 +192,47 @@ theorem opened_sett {addrs st} (h : Sett addrs st) (hs : st.settles = []) (it : 
   constructor
   · intro _
     refine ⟨?_, ?_⟩
-    · simp [opened, h0, List.range_succ]
+    · obtain ⟨c1, c2, c3⟩ := h0
+      refine ⟨?_, ?_, ?_⟩
+      · intro i x hi
+        show i ∈ addIn a st.inSet st.streams.length ∨ x.closed = true
+        have hi' : (st.streams ++ [⟨a, it, if a.sync then .err else .pending, a.sync, a.sync, 0⟩])[i]? = some x := hi
+        by_cases hlt : i < st.streams.length
+        · rw [List.getElem?_append_left hlt] at hi'
+          rcases c1 i x hi' with hm | hc
+          · left; unfold addIn; split
+            · exact hm
+            · exact List.mem_append_left _ hm
+          · exact Or.inr hc
+        · have hlen := lt_length_of_getElem? hi'
+          simp only [List.length_append, List.length_cons, List.length_nil] at hlen
+          have he : i = st.streams.length := by omega
+          subst he
+          rw [List.getElem?_append_right (Nat.le_refl _)] at hi'
+          simp only [Nat.sub_self, List.getElem?_cons_zero, Option.some.injEq] at hi'
+          subst hi'
+          cases hp : a.phantom
+          · left; simp [addIn, hp]
+          · right
+            simp only [Addr.phantom, Bool.and_eq_true] at hp
+            exact hp.1
+      · show (addIn a st.inSet st.streams.length).Nodup
+        unfold addIn; split
+        · exact c2
+        · refine List.nodup_append.mpr ⟨c2, by simp, ?_⟩
+          intro x hx y hy
+          simp only [List.mem_singleton] at hy
+          subst hy
+          exact Nat.ne_of_lt (c3 x hx)
+      · intro i hi
+        show i < (st.streams ++ [_]).length
+        simp only [List.length_append, List.length_cons, List.length_nil]
+        have hi' : i ∈ addIn a st.inSet st.streams.length := hi
+        unfold addIn at hi'; split at hi'
+        · exact Nat.lt_succ_of_lt (c3 i hi')
+        · rcases List.mem_append.mp hi' with hm | hm
+          · exact Nat.lt_succ_of_lt (c3 i hm)
+          · simp only [List.mem_singleton] at hm; omega
     · intro x hx
       simp only [opened, List.mem_append, List.mem_singleton] at hx
       rcases hx with hx | rfl
